@@ -15,12 +15,12 @@ from mc.pool import h64
 
 ID = "C19"
 LEVEL = "model_checking"
-LEVEL_TEXT = ("Explicit-state search over histories of assemblies run in one process: alphabet of 14 events (valid program; program defining "
+LEVEL_TEXT = ("Explicit-state search over histories of assemblies run in one process: alphabet of 18 events (valid program; program defining "
               "macros, symbols and a named scope whose names collide with the probes'; table load; custom .map; HiROM; failure in the "
               "scanner / parser / code generation / label pass / emission, each mid-way; the CLI in-process with -m and -D; relocation + "
-              "incbin + include; failure inside an included file; missing include file), every history up to depth 3 (thorough 4) executed from a pristine forked process; the state after each "
+              "incbin + include; failure inside an included file; missing include file; macro block argument; .include_ips with a delta; malformed table file; table file rewritten between assemblies), every history up to depth 2 over all events and depth 3 over 9 core events (thorough 3 / 4) executed from a pristine forked process; the state after each "
               "event is the fingerprint of all module-level mutable state of a816.* and script.* (module globals, class attributes, "
-              "function defaults, cache sizes). In every reached state each of 10 probe programs (valid LoROM/HiROM/.map, macros+scopes, "
+              "function defaults, cache sizes). In every reached state each of 14 probe programs (valid LoROM/HiROM/.map, macros+scopes, "
               "table, two failing ones, one that relies on names being absent) is assembled twice and must give the blocks, labels, "
               "symbols and error text of the probe assembled alone; one baseline per probe also comes from a real fresh interpreter. "
               "Each unit test builds one Program in isolation.")
@@ -34,9 +34,15 @@ RULE = ("state = fingerprint of module-level state after a history; transition =
 ASSUMPTIONS = ["a forked child of a process that only imported a816 is equivalent to a fresh process (cross-checked once per run against a real one)",
                "fingerprint covers module globals / class attributes / function defaults / lru_cache sizes of a816.* and script.*"]
 
+def refips_build():
+    from mc.ref import ips as _ips
+    return _ips.build([(0x1000, b"\x01\x02\x03", "plain"), (0x2000, (4, 0x55), "rle")])
+
+
 TBL_E = "41=a\n42=b\n"
 TBL_P = "10=a\n2021=b\n"
-FILES = {"e.tbl": TBL_E, "p.tbl": TBL_P, "blob.bin": bytes(range(16)), "inc.s": "incl:\n.dw incl\n", "badinc.s": "; included file with an error\n.bogus 1\n"}
+FILES = {"e.tbl": TBL_E, "p.tbl": TBL_P, "blob.bin": bytes(range(16)), "inc.s": "incl:\n.dw incl\n", "badinc.s": "; included file with an error\n.bogus 1\n",
+         "bad.tbl": "41=a\n4=b\n43=c\n", "ev.ips": refips_build()}
 
 EVENTS = {
     "valid": ("*=0x018000\nstart:\nlda.w #0x1234\n.dl start\n", "low_rom"),
@@ -50,6 +56,10 @@ EVENTS = {
     "fail-labelpass": ("*=0x018000\n{\nlater = 5\nlda later\n}\n", "low_rom"),
     "fail-emit": (".table 'e.tbl'\n*=0x028000\n.db 1, 2\n{\n.dw nosuchsymbol\n}\n.db 3\n", "low_rom"),
     "cli": (None, None),
+    "block-argument": (".macro wrapb(blk, num) {\n{{blk}}\n.db num\n}\n*=0x018000\nwrapb({\n.db 0x51\n}, 7)\n", "low_rom"),
+    "ips-with-delta": ("*=0x018000\n.db 1\n.include_ips 'ev.ips', 0-0x100\n", "low_rom"),
+    "bad-table": ("*=0x018000\n.table 'bad.tbl'\n.text 'a'\n", "low_rom"),
+    "rewritten-table": ("REWRITE", "low_rom"),
     "fail-in-include": ("*=0x018000\n.db 1\n.include 'badinc.s'\n.db 2\n", "low_rom"),
     "missing-include": ("*=0x018000\n.db 1\n.include 'nosuchfile.s'\n", "low_rom"),
     "reloc-files": ("*=0x018000\n.include 'inc.s'\n.incbin 'blob.bin'\n@=0x7e2000\nr:\n.pointer r\n", "low_rom"),
@@ -63,17 +73,22 @@ PROBES = {
     "p-fail-node": ("*=0x018000\n.db 1\nlda.w missing_symbol\n", "low_rom"),
     "p-fail-scan": ("*=0x018000\n.db 1\n  lda 0x12,z\n", "low_rom"),
     "p-absent-names": ("*=0x018000\n.dw shared\npm(1)\n.dw ns.val\n.text 'ab'\n", "low_rom"),
+    "p-param-as-number": (".macro useb(blk, num) {\n.db blk, num\n}\n*=0x018000\nuseb(5, 6)\n", "low_rom"),
+    "p-undefined-splice": ("*=0x018000\n.db 1\n{{blk}}\n", "low_rom"),
+    "p-ips-with-delta": ("*=0x018000\n.db 2\n.include_ips 'ev.ips', 0-0x100\n.include_ips 'ev.ips', 0x40\n", "low_rom"),
+    "p-bad-table": ("*=0x018000\n.table 'bad.tbl'\n.text 'a'\n", "low_rom"),
     "p-fail-include": ("*=0x018000\n.include 'inc.s'\n.include 'badinc.s'\n", "low_rom"),
     "p-missing-include": ("*=0x018000\n.include 'inc.s'\n.include 'nosuchfile.s'\n", "low_rom"),
     "p-map": (".map identifier=1 bank_range=0x10, 0x1f addr_range=0x8000, 0xffff mask=0x8000\n*=0x108000\nm:\n.dl m\n", "low_rom"),
 }
 PROBE_NAMES = list(PROBES)
-NONTRIVIAL_EVENTS = {"defines-names", "table", "custom-map", "hirom", "fail-scanner", "fail-parser", "fail-codegen", "fail-labelpass", "fail-emit", "cli", "fail-in-include", "missing-include"}
+NONTRIVIAL_EVENTS = {"defines-names", "table", "custom-map", "hirom", "fail-scanner", "fail-parser", "fail-codegen", "fail-labelpass", "fail-emit", "cli", "fail-in-include", "missing-include", "block-argument", "ips-with-delta", "bad-table", "rewritten-table"}
 
 
 def bound(tier):
-    d = 4 if tier == "thorough" else 3
-    return f"all histories of length <= {d} over 14 events (from a pristine process each), 10 probes x 2 after every history"
+    if tier == "thorough":
+        return "all histories of length <= 3 over 18 events and of length 4 over 9 core events (from a pristine process each), 14 probes x 2 after every history"
+    return "all histories of length <= 2 over 18 events and of length 3 over 9 core events (from a pristine process each), 14 probes x 2 after every history"
 
 
 def norm(text):
@@ -105,6 +120,12 @@ def do_event(name):
             sys.argv = saved
         return
     src, rom = EVENTS[name]
+    if src == "REWRITE":
+        # an assembly that loads p.tbl while the file has OTHER content; the file is put back afterwards
+        impl.write_files({"p.tbl": "77=a\n78=b\n"})
+        impl.assemble(".table 'p.tbl'\n*=0x018000\n.text 'ab'\n", rom=rom, filename="event.s")
+        impl.write_files({"p.tbl": TBL_P})
+        return
     impl.assemble(src, rom=rom, filename="event.s")
 
 
@@ -252,20 +273,27 @@ def baseline():
     return _BASE
 
 
+CORE_EVENTS = ["defines-names", "custom-map", "hirom", "fail-codegen", "fail-emit", "cli", "block-argument", "rewritten-table", "fail-in-include"]
+
+
 def cases(tier, seed):
-    d = 4 if tier == "thorough" else 3
+    full_d = 3 if tier == "thorough" else 2
+    core_d = 4 if tier == "thorough" else 3
     yield ("fresh-interpreter",)
-    for n in range(0, d + 1):
+    for n in range(0, full_d + 1):
         if n <= 1:
             yield ("hist", n, ())
         else:
             for pre in itertools.product(range(len(EVENT_NAMES)), repeat=n - 1):
                 yield ("hist", n, pre)
+    core = [EVENT_NAMES.index(e) for e in CORE_EVENTS]
+    for pre in itertools.product(core, repeat=core_d - 1):
+        yield ("hist-core", core_d, pre)
 
 
 def describe(case, res):
     d = {"case": list(case), "outcome": res.get("outcome")}
-    if case[0] == "hist":
+    if case[0] in ("hist", "hist-core"):
         d["history_prefix"] = [EVENT_NAMES[i] for i in case[2]]
     if res.get("example"):
         d["example"] = res["example"]
@@ -312,7 +340,7 @@ def run_fresh():
             "violations": viol}
 
 
-def run_hist(n, pre):
+def run_hist(n, pre, core=False):
     base_fps, base_obs = baseline()
     s0 = base_fps[0]
     viol = []
@@ -321,7 +349,8 @@ def run_hist(n, pre):
     states = set()
     transitions = 0
     example = None
-    tails = [()] if n == len(pre) else itertools.product(range(len(EVENT_NAMES)), repeat=n - len(pre))
+    alphabet = [EVENT_NAMES.index(e) for e in CORE_EVENTS] if core else range(len(EVENT_NAMES))
+    tails = [()] if n == len(pre) else itertools.product(alphabet, repeat=n - len(pre))
     for tail in tails:
         hist = [EVENT_NAMES[i] for i in tuple(pre) + tuple(tail)]
         kind, val = in_child(lambda h=hist: history_run(h))
@@ -350,4 +379,4 @@ def run_hist(n, pre):
 def run_case(case):
     if case[0] == "fresh-interpreter":
         return run_fresh()
-    return run_hist(case[1], case[2])
+    return run_hist(case[1], case[2], core=(case[0] == "hist-core"))
